@@ -422,8 +422,12 @@ def _cls(c):
 # --------------------------------------------------------------------------
 
 
-def check_string(s, st, I, only=None, tmpl=True):
-    """run every operation on one string.  `only` (replay) = (op, route) filter for reporting."""
+ALL_PARTS = ("filters", "decode", "enc")
+
+
+def check_string(s, st, I, tmpl=True, parts=ALL_PARTS, charsets=None):
+    """run the operations of `parts` on one string; counts into st, returns the list of failures
+    (op, route, sig, message, observed) without reporting them."""
     viol = []
     oc = st.outcomes
     orc = st.oracles
@@ -436,7 +440,7 @@ def check_string(s, st, I, only=None, tmpl=True):
             return False, e
 
     # h, x, u, entity, trim: direct call and ${v | f}
-    for name in ("h", "x", "u", "entity", "trim"):
+    for name in ("h", "x", "u", "entity", "trim") if "filters" in parts else ():
         prev = None
         for route, f in (("direct", I["direct"][name]), ("template", I["tmpl"][name])) if tmpl else (("direct", I["direct"][name]),):
             ok, out = call(f, s) if route == "direct" else call(f, v=s)
@@ -464,7 +468,7 @@ def check_string(s, st, I, only=None, tmpl=True):
 
     # decode.<enc>: str, bytes, other object
     u8 = s.encode("utf-8")
-    for std, alias, f, t_str, t_n in I["dec"]:
+    for std, alias, f, t_str, t_n in I["dec"] if "decode" in parts else ():
         inputs = [("str", s, s), ("obj", _Obj(s), s)]
         try:
             inputs.append(("bytes-utf8", u8, u8.decode(std)))
@@ -504,7 +508,7 @@ def check_string(s, st, I, only=None, tmpl=True):
                     oc[op + ":" + kind + ":ok"] += 1
 
     # encoding error handler: str.encode and Template.render
-    for cs in CHARSETS:
+    for cs in (charsets or CHARSETS) if "enc" in parts else ():
         prev = None
         for route in ("direct", "template") if tmpl else ("direct",):
             if route == "direct":
@@ -546,13 +550,57 @@ def check_string(s, st, I, only=None, tmpl=True):
 
     st.evaluations += nev
     st.transitions += nev
+    return viol
+
+
+def full_sig(op, sig):
+    # footprint: operation + failing feature (the charset is not part of it: the handler is one function)
+    return "%s:%s" % ("htmlentityreplace" if op.startswith("enc.") else op, sig)
+
+
+MODNAME = "mc.props.c10"
+AFTER_ENC = ":after an earlier htmlentityreplace encode in the process"
+AFTER_CASE = ":after an earlier case in the process"
+MAX_PRELUDE_SEARCHES = 6  # per job
+
+
+def report_grid(s, viol, st, I, hist):
+    """report the failures of one grid case.  The filters must not depend on what the process did
+    before, but a long-lived worker has a history: a failure is reported together with the shortest
+    prelude (nothing, or one earlier case) after which it reproduces in a fresh interpreter."""
+    memo = I.setdefault("prelude_memo", {})
     for op, route, sig, msg, observed in viol:
-        if only is not None and (op, route) != tuple(only):
-            continue
-        # footprint: operation + failing feature (the charset is not part of it: the handler is one function)
-        full = "%s:%s" % ("htmlentityreplace" if op.startswith("enc.") else op, sig)
-        st.violation(full, {"s": s, "op": op, "route": route, "seed": I["seed"]}, "%s (%s): %s" % (op, route, msg), expected="see oracle", observed=observed)
-    return len(viol)
+        full = full_sig(op, sig)
+        case = {"s": s, "op": op, "route": route, "seed": I["seed"]}
+        how = memo.get(full)
+        if how is None:
+            if I.get("prelude_searches", 0) >= MAX_PRELUDE_SEARCHES:
+                st.extra["failures_not_located"] = st.extra.get("failures_not_located", 0) + 1
+                continue
+            I["prelude_searches"] = I.get("prelude_searches", 0) + 1
+            pre = core.find_prelude(MODNAME, case, [{"s": h, "seed": I["seed"]} for h in hist])
+            if pre is None:
+                st.extra.setdefault("harness_errors", []).append(
+                    "failure seen in the worker reproduces neither alone nor after one of the last %d cases: %s %r" % (len(hist), full, case)
+                )
+                memo[full] = "lost"
+                continue
+            if not pre:
+                how = memo[full] = "alone"
+            else:
+                h_enc = dict(pre[0], parts=["enc"])
+                if core.isolated_replay(MODNAME, [h_enc, case]) is False:
+                    pre, suffix = [h_enc], AFTER_ENC
+                else:
+                    suffix = AFTER_CASE
+                memo[full] = "located"
+                st.violation(full + suffix, dict(case, prelude=pre), "%s (%s): %s" % (op, route, msg), expected="see oracle", observed=observed)
+                continue
+        if how == "alone":
+            st.violation(full, case, "%s (%s): %s" % (op, route, msg), expected="see oracle", observed=observed)
+        else:
+            # same order-dependent footprint as one already located (or lost): counted, not re-located
+            st.extra["order_dependent_failures"] = st.extra.get("order_dependent_failures", 0) + 1
 
 
 def check_case(s, st, I, tmpl=True):
@@ -560,7 +608,117 @@ def check_case(s, st, I, tmpl=True):
     st.traces += 1
     if nontrivial(s):
         st.nontrivial += 1
-    check_string(s, st, I, tmpl=tmpl)
+    viol = check_string(s, st, I, tmpl=tmpl)
+    hist = I["hist"]
+    if viol:
+        report_grid(s, viol, st, I, hist)
+    hist.append(s)
+
+
+# --------------------------------------------------------------------------
+# (v) sequences: the filters and the error handler share one XMLEntityEscaper (and whatever else
+# the process keeps); each sequence runs in a fresh interpreter so that its first step really is
+# the first use in the process.
+
+POOL_C1 = ["\x85", "\x80", "\x9f", "\x91"]
+SEQ_ORDERS = {"enc-first": ("enc", "filters"), "filters-first": ("filters", "enc")}
+
+
+def seq_chars(tier, seed):
+    """(class, character) representatives: quick = the seed's pick of every pool, thorough = all of every pool"""
+    pools = [("latin1-named", POOL_L1), ("bmp-named", POOL_NAMED), ("bmp-unnamed", POOL_BMP), ("astral", POOL_ASTRAL), ("C1", POOL_C1)]
+    out = []
+    for cls, pool in pools:
+        for k, c in enumerate(pool):
+            if tier != "quick" or k == seed % 4:
+                out.append((cls, c))
+    return out
+
+
+def seq_strings(c, d):
+    return [c, d["A"] + c + d["B"], c + c]
+
+
+def run_sequence(case):
+    """executed in the fresh child: the steps in order; returns a JSON-able summary"""
+    seed = case.get("seed", 0)
+    I = impl(seed)
+    I["seed"] = seed
+    I["dec_templates"] = "all"
+    st = Stats()
+    fails = []
+    for k, step in enumerate(SEQ_ORDERS[case["order"]]):
+        for s in seq_strings(case["c"], I["d"]):
+            if step == "enc":
+                viol = check_string(s, st, I, parts=("enc",), charsets=[case["cs"]])
+            else:
+                viol = check_string(s, st, I, parts=("filters", "decode"))
+            for op, route, sig, msg, observed in viol:
+                fails.append({"step": k, "s": s, "op": op, "route": route, "sig": sig, "msg": msg, "observed": observed})
+    return {"fails": fails, "evaluations": st.evaluations, "oracles": dict(st.oracles), "outcomes": dict(st.outcomes)}
+
+
+_SEQ_CHILD = (
+    "import sys, json\n"
+    "sys.path.insert(0, %r)\n"
+    "from mc import core\n"
+    "core.bind_repo()\n"
+    "from mc.props import c10\n"
+    "print('RESULT ' + json.dumps(c10.run_sequence(json.load(sys.stdin))))\n"
+)
+
+
+def sequence_in_child(case):
+    import json
+    import os
+    import subprocess
+    import sys
+
+    env = dict(os.environ, VERIF_REPO=os.path.abspath(core.REPO), PYTHONHASHSEED=os.environ.get("PYTHONHASHSEED", "0"))
+    pr = subprocess.run([sys.executable, "-B", "-c", _SEQ_CHILD % core.VERIF], input=json.dumps(case), capture_output=True, text=True, env=env, timeout=600)
+    for line in pr.stdout.splitlines()[::-1]:
+        if line.startswith("RESULT "):
+            return json.loads(line[7:])
+    raise RuntimeError("sequence child died: rc=%s %s" % (pr.returncode, pr.stderr[-800:]))
+
+
+def _seq_key(f):
+    return (f["op"], f["route"], f["sig"], f["s"])
+
+
+def check_sequences(pairs, seed, st):
+    for cls, c, cs in pairs:
+        res = {}
+        for order in SEQ_ORDERS:
+            case = {"kind": "seq", "c": c, "cs": cs, "order": order, "seed": seed}
+            r = res[order] = sequence_in_child(case)
+            st.states += 1
+            st.traces += 1
+            st.evaluations += r["evaluations"]
+            st.transitions += r["evaluations"]
+            st.oracles.update(r["oracles"])
+            st.oracles["sequence"] += 1
+            try:
+                c.encode(cs)
+                handler = "handler idle"
+            except UnicodeEncodeError:
+                handler = "handler runs"
+                st.nontrivial += 1
+            st.outcomes["seq:%s:%s:%s:%s" % (order, cls, handler, "fails" if r["fails"] else "ok")] += 1
+            st.extra["sequences"] = st.extra.get("sequences", 0) + 1
+        # a failure that also happens as the very first step of a process is not order-dependent
+        first = {_seq_key(f) for r in res.values() for f in r["fails"] if f["step"] == 0}
+        for order, r in res.items():
+            for f in r["fails"]:
+                if f["step"] > 0 and _seq_key(f) in first:
+                    continue
+                sig = full_sig(f["op"], f["sig"])
+                if f["step"] > 0:
+                    sig += AFTER_ENC if SEQ_ORDERS[order][0] == "enc" else ":after earlier filter calls in the process"
+                case = {"kind": "seq", "c": c, "cs": cs, "order": order, "seed": seed, "step": f["step"], "s": f["s"], "op": f["op"], "route": f["route"]}
+                st.violation(sig, case, "sequence %s, step %d: %s (%s): %s" % (order, f["step"], f["op"], f["route"], f["msg"]), expected="see oracle", observed=f["observed"])
+        if len(st.samples) < 2:
+            st.sample({"family": "v", "character": "U+%04X" % ord(c), "class": cls, "charset": cs, "orders": list(SEQ_ORDERS)})
 
 
 # --------------------------------------------------------------------------
@@ -569,6 +727,7 @@ def check_case(s, st, I, tmpl=True):
 _SAMPLE_CPS = {0x3C: 1, 0x85: 0, 0xE9: 2, 0x20AC: 3, 0x4E2D: 4, 0x1D11E: 1}
 NJOBS_CP = 48
 NJOBS_W = 16
+NJOBS_SEQ = 8
 
 
 def plan(tier, seed):
@@ -577,17 +736,28 @@ def plan(tier, seed):
         jobs.append({"kind": "cp", "tier": tier, "seed": seed, "shard": i, "nshards": NJOBS_CP})
     for i in range(NJOBS_W):
         jobs.append({"kind": "words", "tier": tier, "seed": seed, "shard": i, "nshards": NJOBS_W})
+    pairs = [[cls, c, cs] for cls, c in seq_chars(tier, seed) for cs in CHARSETS]
+    seqjobs = [{"kind": "seq", "tier": tier, "seed": seed, "pairs": pairs[i::NJOBS_SEQ]} for i in range(NJOBS_SEQ)]
     # heavy (cp) shards first, permuted by the seed
     k = seed % NJOBS_CP
-    return jobs[k:NJOBS_CP] + jobs[:k] + jobs[NJOBS_CP:]
+    return jobs[k:NJOBS_CP] + jobs[:k] + seqjobs + jobs[NJOBS_CP:]
 
 
 def run_job(job):
     st = Stats()
     t0 = time.time()
     tier, seed = job["tier"], job["seed"]
+    if job["kind"] == "seq":
+        check_sequences([tuple(x) for x in job["pairs"]], seed, st)
+        st.extra["worker_wall_s_seq"] = round(time.time() - t0, 1)
+        return st
+    import collections
+
     I = impl(seed)
     I["seed"] = seed
+    I["hist"] = collections.deque(maxlen=48)
+    I["prelude_searches"] = 0
+    I["prelude_memo"] = {}
     I["dec_templates"] = BOUNDS[tier]["decode_template_routes"]
     d = I["d"]
     ctxs = contexts(tier, d)
@@ -647,15 +817,24 @@ def post(tier, seed, st):
 
 
 def replay(case):
+    """grid case {s, op, route[, parts]}: plain calls in this process (op absent = run everything, as a prelude does);
+    sequence case {kind: seq, ...}: the sequence again in a fresh interpreter.
+    A 'prelude' key is handled by the caller (core.finish / core.isolated_replay run the prelude first)."""
     seed = case.get("seed", 0)
+    if case.get("kind") == "seq":
+        r = sequence_in_child({k: case[k] for k in ("kind", "c", "cs", "order", "seed")})
+        for f in r["fails"]:
+            if (f["step"], f["s"], f["op"], f["route"]) == (case["step"], case["s"], case["op"], case["route"]):
+                return False, "reproduced: step %d %s sig=%s observed=%r" % (f["step"], f["op"], f["sig"], f["observed"])
+        return True, "holds"
     I = impl(seed)
     I["seed"] = seed
     I["dec_templates"] = "all"
     st = Stats()
-    check_string(case["s"], st, I, only=(case["op"], case["route"]))
-    if st.violations:
-        v = st.violations[0]
-        return False, "reproduced: sig=%s oracle=%s observed=%r" % (v["sig"], v["oracle"], v["observed"])
+    viol = check_string(case["s"], st, I, parts=tuple(case.get("parts") or ALL_PARTS))
+    for op, route, sig, msg, observed in viol:
+        if case.get("op") is None or (op, route) == (case["op"], case["route"]):
+            return False, "reproduced: sig=%s oracle=%s (%s): %s observed=%r" % (full_sig(op, sig), op, route, msg, observed)
     return True, "holds"
 
 
